@@ -169,6 +169,11 @@ def worker_main(argv):
 
         if not getattr(mod, "NO_CONTRACTS", False):
             contracts.attach()
+        if not getattr(mod, "NO_INTERFERENCE", False) and shard.get("jit_mode") != "asan":
+            from . import interfere
+
+            interfere.preamble()
+            rec.count("interference_preamble_generator_calls", interfere.CALLS)
         mod.run_shard(shard, rec)
         for k, n in contracts.EVALUATIONS.items():
             rec.count("contract:" + k, n)
